@@ -4,6 +4,14 @@ import Exetera.Lemmas.CsvTypedRaise
 /-!
 # C05 ∘ C06 — the public entry point with a schema of typed columns: `typed import = C06.spec ∘ C05.spec`
 
+**Reading note on "fix NC06d".** NC06d (a strict categorical column stores code 0 for a cell that equals no category key) is an OPEN
+finding: the repair exists only as a proposal (`fixes/proposed/NC06d_strict_categorical_rejects_unknown_text.patch`) and is NOT
+applied to /repo. Wherever a statement below says "fix NC06d" / "checked" it describes the PROPOSED importer (the model variant
+`catColumn` / `categoricalChecked`): for strict categorical columns it is a statement about that proposal, not about the code as
+found. What holds of the code as found is `categorical_property_partial` (every cell that IS a key is stored as its code) and the
+witness `Witness.C06.nc06d_unmatched_text_stored_as_zero`; the checks report the difference as KNOWN-FINDING NC06d. For every other
+column kind (and for strict categorical cells that are keys) the two coincide.
+
 `Props/C05.lean` proves that the CSV reader hands over exactly the file's records whatever the chunking and the regrowth
 (text columns); `Props/C06.lean` proves, per importer and per chunk, that the typed conversion is the specified one. Here
 the two are composed for the model the correspondence driver executes (`Csv.readFile` / `Csv.readCsv` of `Model/Csv.lean`,
